@@ -43,7 +43,10 @@ fn requests(set: &[RouteSpec]) -> Vec<Req> {
     let mut out = vec![];
     for p in &paths {
         for m in ["GET", "PUT", "POST", "PATCH", "DELETE", "HEAD", "OPTIONS"] { out.push(Req { method: m, path: p.clone(), acrm: None, acrh: None }) }
-        for acrm in ["GET", "PUT", "POST", "PATCH", "DELETE", "HEAD", "OPTIONS", "FOO"] { for acrh in [None, Some("X-Req, X-Other")] {
+        // requested methods: the seven real ones, an unknown token, and near-misses of real ones (strict prefix / suffix, other
+        // case, two names joined as the advertised list joins them, the bare separator) - none of the latter is a registered method
+        for acrm in ["GET", "PUT", "POST", "PATCH", "DELETE", "HEAD", "OPTIONS", "FOO", "GE", "OST", "get", "GET, POST", "PUT, DELETE", ", ", "TIONS"] { for acrh in [None, Some("X-Req, X-Other")] {
+            if acrh.is_some() && acrm.len() != 3 && !["POST", "OPTIONS"].contains(&acrm) { continue }
             out.push(Req { method: "OPTIONS", path: p.clone(), acrm: Some(acrm), acrh })
         } }
     }
@@ -207,7 +210,7 @@ pub fn run(ctx: &mut Ctx) {
     ctx.extra.insert("rule".into(), json!("case = (policy, route set with method subsets, declaration shape, registration order, request); non-trivial = a preflight, an OPTIONS request or a non-404 simple request; collision = a preflight to a route for which two or more methods are registered (the allowed-method list is assembled per registration and overridden on merge, so several registrations for one route are what can go wrong)"));
     ctx.extra.insert("bounds".into(), json!({"policies": pols.len(), "routes": "depth<=2 over {a,ab,b,:p}", "single-route method subsets": "all 31", "policies per single-route set": if quick { "1 (rotating through all 32)" } else { "all 32" },
         "pair method menu": menu, "policies per pair set": if quick { "1 (rotating)" } else { "8 (rotating)" }, "shapes": "as C01 (flat, split, mount1, mount2, nested, inline, mount-one), first two orders (all orders for split)",
-        "requests": "7 methods + 16 preflight variants on every route instance, every proper prefix of it, one path below it, / and /zz"}));
+        "requests": "7 methods + 23 preflight variants (7 real requested methods, FOO, 7 near-misses of real ones; with/without requested headers) on every route instance, every proper prefix of it, one path below it, / and /zz"}));
     ctx.traces_validated = ctx.transitions;
 }
 
